@@ -5,7 +5,7 @@
    (`repaired`), which `checked_tree_is_repaired` shows the checked tree to be. *)
 From Coq Require Import ZArith List Bool.
 From GD Require Import C02.Model C02.Slices C02.CodecProofs C02.BzRead C02.HistoryProofs C02.Windows
-                       C02.Handle C02.Current C02.Refutations Gen.C02Cfg.
+                       C02.Handle C02.Current C02.Refutations C02.MplexCache Gen.C02Cfg.
 Import ListNotations.
 Local Open Scope Z_scope.
 
@@ -45,6 +45,34 @@ Theorem invariant_after_any_history :
   forall BUF dec, (forall S, dec_ok BUF dec S) -> forall d, wf_db d ->
   forall h s, InvH d s -> InvH d (run dec d s h).
 Proof. exact run_inv. Qed.
+
+(* ---- MPLEX: start-value cache (type, sample, datum), chunked look-back over the whole field,
+   _GD_MplexData and the invalidation by gd_putdata, as a layer over the whole-field contents of its two
+   inputs (justified for the inputs by history_independent).  For EVERY history of reads (any windows,
+   any return types, any order) and writes changing the inputs arbitrarily, every chunk size and
+   count value: a read returns exactly the window of the CURRENT contents. *)
+Theorem mplex_history_independent :
+  forall cval CH pad cycle h st rt first n,
+    0 < CH -> MInv cval pad st -> Forall good_event h -> 0 <= first ->
+    let '(ca, vin, vcnt) := mrun cval CH pad true cycle st h in
+    snd (mplex_read cval CH pad (-1) cycle ca vin vcnt rt first n)
+    = window (mplex_val cval pad vin vcnt rt) first (Z.to_nat n).
+Proof. exact MplexCache.mplex_history_independent. Qed.
+
+Theorem mplex_cache_invariant :
+  forall cval CH pad cycle st e, 0 < CH -> MInv cval pad st -> good_event e ->
+    MInv cval pad (fst (mstep cval CH pad true cycle st e)).
+Proof. exact mstep_inv. Qed.
+
+(* before dc2eda2 (no invalidation) the statement fails: read [10,19), gd_putdata a[18] := 200,
+   read [19,22) returns the stale 18; the cache key includes the return type *)
+Theorem mplex_putdata_refuted_before_repair :
+  w_read false = [18; 18; 18] /\ w_read true = [200; 200; 200] /\
+  window (mplex_val 2 (fun _ => 0) (of_list w_in1) (of_list w_cnt) 1) 19 3 = [200; 200; 200].
+Proof. exact putdata_cache_witness. Qed.
+Example mplex_hypotheses_satisfiable :
+  MInv 2 (fun _ => 0) (None, of_list w_in0, of_list w_cnt) /\ Forall good_event w_hist.
+Proof. exact mplex_hyps_ok. Qed.
 
 (* ---- the codec cursors, every history, every size *)
 Theorem bzip2_read_window :
